@@ -5,7 +5,7 @@ import re
 import shutil
 
 from . import e2e_gen as G, e2e_run as R, e2e_eval as EV
-from .common import WIRE, GOENV, run, scratch, rmtree, seed, log
+from .common import WIRE, GOENV, REPO, run, scratch, rmtree, seed, log
 
 
 def collect(root, progs):
@@ -125,7 +125,7 @@ def run_layouts(rep, tier):
     """one program with third-party dependencies resolved in module mode, GOPATH mode, GOPATH + vendor"""
     fails = []
     outs = {}
-    wire_src = open("/repo/wire.go").read()
+    wire_src = open(REPO + "/wire.go").read()
     # module mode
     m = scratch("wvc16m")
     g = scratch("wvc16g")
